@@ -28,7 +28,7 @@ COPIES = {
     "hsdp": ("distributed_shampoo/utils/shampoo_hsdp_distributor.py", "distributed_shampoo.utils.shampoo_hsdp_distributor", "HSDPDistributor", "_dist_group_size"),
     "hybrid": ("distributed_shampoo/utils/shampoo_hybrid_shard_distributor.py", "distributed_shampoo.utils.shampoo_hybrid_shard_distributor", "HybridShardDistributor", "_dist_group_size"),
 }
-FUNCS = [(f, f"{c}.{m}") for f, _, c, _ in COPIES.values() for m in ("_distribute_buffer_sizes", "_split_local_dist_buffers", "_construct_distributed_buffers", "_allocate_zeros_distributed_tensor")]
+FUNCS = [("distributed_shampoo/utils/shampoo_ddp_distributor.py", "DDPDistributor.__init__"), ("distributed_shampoo/utils/shampoo_ddp_distributor.py", "DDPDistributor._construct_global_block_info_list")] + [(f, f"{c}.{m}") for f, _, c, _ in COPIES.values() for m in ("_distribute_buffer_sizes", "_split_local_dist_buffers", "_construct_distributed_buffers", "_allocate_zeros_distributed_tensor")]
 TRUSTED = [
     "ASSUMED contracts: heapq.heappop returns and removes the lexicographically least element, heappush inserts, heapify keeps the multiset (validated natively against the real heapq); sorted(key=, reverse=True) is CPython's (the real function is executed on symbolic keys)",
     "ASSUMED contracts: torch.split(buffer, sizes) returns consecutive views with the given lengths (requires sum == length); Tensor.split(k)[0] is the first min(k, len) bytes; view(dtype) requires byte offset and length multiples of the element size; views share storage",
@@ -110,6 +110,7 @@ def cases(tier):
                 cs.append(f"buffers/{copy}/n{n}/G{G}")
         cs.append(f"structure/{copy}")
         cs.append(f"alloc/{copy}")
+    cs.append("ctor/ddp")
     return cs
 
 
@@ -530,7 +531,84 @@ def _alloc_case(case):
     return out
 
 
+def _ctor_case(case):
+    """The REAL DDPDistributor.__init__ executed for every (world size 1..8, divisor group size, rank) with torch.distributed
+    replaced by a stub namespace (no process group needed): all ranks compute the same assignment; rank r's distributor selector,
+    local blocks, block-info list (the blocks it allocates state for) and local buffer are exactly those of the blocks whose
+    owner is r's group rank; every block has exactly one owner per group."""
+    import torch
+    from distributed_shampoo import shampoo_types as st
+    mod, C, attr = _cls("ddp")
+    func = "DDPDistributor.__init__"
+    out = []
+    shapes = [(4, 2), (2, 2), (6,), (3, 2), (5, 3)]
+    for world in range(1, 9):
+        for gsize in [g for g in range(1, world + 1) if world % g == 0]:
+            per_rank = {}
+            for rank in range(world):
+                class Dist:
+                    ProcessGroup = object
+
+                    class distributed_c10d:
+                        class GroupMember:
+                            WORLD = "WORLD"
+
+                    @staticmethod
+                    def get_world_size():
+                        return world
+
+                    @staticmethod
+                    def new_subgroups(group_size=None):
+                        return ("SUBGROUP", None)
+
+                    @staticmethod
+                    def get_rank(group=None):
+                        return rank % gsize if group == "SUBGROUP" else rank
+
+                params = [torch.nn.Parameter(torch.zeros(s)) for s in shapes]
+                cfg = st.DDPShampooConfig(communication_dtype=st.CommunicationDType.BF16, num_trainers_per_group=(gsize if gsize != world else -1))
+                try:
+                    with rebind([(mod, "dist", Dist)]):
+                        D = C({st.PARAMS: params, st.MAX_PRECONDITIONER_DIM: 2, st.USE_MERGE_DIMS: False}, cfg)
+                except BaseException as e:  # noqa
+                    per_rank[rank] = f"{type(e).__name__}: {e}"
+                    continue
+                n = len(D._global_blocked_params)
+                owners = None
+                sel = tuple(D._distributor_selector)
+                infos = [(bi.composable_block_ids, bi.group_source_rank) for bi in D._local_block_info_list]
+                seg = D._global_dist_buffer.numel() // gsize
+                per_rank[rank] = dict(n=n, sel=sel, infos=infos, nlocal=len(D._local_blocked_params), seg=seg,
+                                      lb=(D._local_dist_buffer.storage_offset(), D._local_dist_buffer.numel()),
+                                      bufown=[b.storage_offset() * b.element_size() // max(seg, 1) for b in D._global_dist_blocked_buffers])
+            errs = [v for v in per_rank.values() if isinstance(v, str)]
+            ok, txt = not errs, ""
+            if errs:
+                txt = errs[0][:200]
+            else:
+                own = per_rank[0]["bufown"]  # owner of block i as read off the buffer layout (C14 buffers obligation)
+                n = per_rank[0]["n"]
+                for rank, v in per_rank.items():
+                    gr = rank % gsize
+                    want_sel = tuple(o == gr for o in own)
+                    if v["bufown"] != own:
+                        ok, txt = False, f"rank {rank} computed a different assignment than rank 0"
+                    elif v["sel"] != want_sel or v["nlocal"] != sum(want_sel) or len(v["infos"]) != sum(want_sel) or any(o != gr for _, o in v["infos"]):
+                        ok, txt = False, f"rank {rank}: local selection / state block-info list is not exactly the blocks owned by group rank {gr}"
+                    elif v["lb"] != (gr * v["seg"], v["seg"]):
+                        ok, txt = False, f"rank {rank}: local_dist_buffer is not segment {gr}"
+                if ok and (set(own) - set(range(gsize)) or len(own) != n):
+                    ok, txt = False, "owner outside the group"
+            out.append(result(f"{func}/selection-and-state-exactly-for-owned-blocks;all-ranks-agree[{case}/world{world}-group{gsize}]", func,
+                              "discharged" if ok else "violated", backend="concrete-execution of the real constructor (torch.distributed stubbed), all ranks", case=case,
+                              text=txt or f"world {world}, group size {gsize}: every rank agrees on the owners; rank r selects / allocates state for exactly the blocks owned by r mod {gsize}",
+                              replay=dict(kind="ctor")))
+    return out
+
+
 def run_case(case, tier, seed):
+    if case.startswith("ctor/"):
+        return _ctor_case(case)
     if case.startswith("alloc/"):
         return _alloc_case(case)
     if case.startswith("assign/"):
@@ -734,6 +812,10 @@ def replay_file(doc):
     if rp.get("kind") == "native_assign":
         bad = native_assign_check(rp["copy"], tuple(rp["sizes"]), rp["G"])
         return bool(bad), f"sizes {rp['sizes']} G={rp['G']}: {bad}"
+    if rp.get("kind") == "ctor":
+        res = _ctor_case("ctor/ddp")
+        badr = [x for x in res if x["status"] != "discharged"]
+        return bool(badr), badr[0]["text"] if badr else "constructor selections agree with ownership on all ranks"
     if rp.get("kind") == "alloc":
         res = _alloc_case(f"alloc/{rp['copy']}")
         badr = [x for x in res if x["status"] != "discharged"]
